@@ -308,6 +308,131 @@ def t1_cosorted_timestamps(F, r):
                 r.fail("TimeAware::new: index", "the timestamp index is not collected from the sorted matrices after the sort", F.loc(g, tt["ln"]))
 
 
+def _walk(e):
+    yield e
+    root = e[0]
+    subs = []
+    if root[0] == "call":
+        subs = root[2]
+    elif root[0] == "bin":
+        subs = root[2:4]
+    elif root[0] in ("un", "cast"):
+        subs = [root[2]]
+    elif root[0] == "agg":
+        subs = root[2]
+    elif root[0] == "discr":
+        subs = [root[1]]
+    for x in subs:
+        yield from _walk(x)
+
+
+def _bin(e, op, commutative=False):
+    """operands of a binary node with operator op (with/without overflow check), else None"""
+    r = e[0]
+    if r[0] == "bin" and r[1].replace("WithOverflow", "") == op and (not e[1] or e[1] == (".0",)):
+        return r[2], r[3]
+    return None
+
+
+def _matrix_index(e):
+    """index expression of the matrix lookup `matrices.get(<idx>)` inside e, where <idx> derives from the binary search"""
+    for n in _walk(e):
+        r = n[0]
+        if r[0] == "call" and r[1].endswith("::get") and len(r[2]) == 2 and any(m[0][0] == "call" and m[0][1].endswith("binary_search") for m in _walk(r[2][1])):
+            return r[2][1]
+    return None
+
+
+def _is_left_of(a, b):
+    """a == b - 1 ?"""
+    s_ = _bin(a, "Sub")
+    return s_ is not None and s_[0] == b and s_[1][0] == ("const", "1_usize")
+
+
+def i1_interpolation(F, r):
+    """time-dependent routing between two matrix timestamps: durations are interpolated linearly in time between the LEFT (idx-1) and RIGHT (idx) matrix,
+    distances take the LEFT value — canonical expressions of interpolate_duration / interpolate_distance"""
+    dur = [i for i in F.fns if "TimeAwareMatrixTransportCost" in i and i.endswith("::interpolate_duration")]
+    dis = [i for i in F.fns if "TimeAwareMatrixTransportCost" in i and i.endswith("::interpolate_distance")]
+    if len(dur) != 1 or len(dis) != 1:
+        raise AnchorError("TimeAwareMatrixTransportCost::interpolate_duration / interpolate_distance")
+    root = dur[0]
+    fn = F.fns[root]
+    lerp = [g for g in F.family(root) if F.fns[g]["kind"] == "Closure" and any(st["r"]["k"] == "bin" and st["r"]["op"] == "Div" for _, _, st in mir.stmts(F.fns[g]))]
+    if len(lerp) != 1:
+        r.ok("interpolate_duration: form", f"not decided: {len(lerp)} closures divide (the interpolation is not written as one closure over the two bracketing values)")
+        return
+    g = lerp[0]
+    cfn = F.fns[g]
+    e = mir.expr(cfn, {"l": 0, "p": []})
+    ok = False
+    why = "the interpolated value is not `left + (t - t_left) / (t_right - t_left) * (right - left)`"
+    add = _bin(e, "Add")
+    if add:
+        for L, rest in (add, add[::-1]):
+            mul = _bin(rest, "Mul")
+            if not mul:
+                continue
+            for ratio, delta in (mul, mul[::-1]):
+                dv, sb = _bin(ratio, "Div"), _bin(delta, "Sub")
+                if not dv or not sb:
+                    continue
+                R = sb[0]
+                num, den = _bin(dv[0], "Sub"), _bin(dv[1], "Sub")
+                if sb[1] != L or not num or not den:
+                    why = "the value delta is not `right - left` of the two bracketing values"
+                    continue
+                t, tl = num
+                tr, tl2 = den
+                if tl != tl2:
+                    why = "numerator and denominator of the time ratio do not subtract the same (left) timestamp"
+                    continue
+                # roles: L/R are the closure's two parameters, tl/tr timestamps of two different captured matrices
+                lp, rp = L[1][:1], R[1][:1]
+                ml = [m for m in _walk(tl) if m[0] == ("arg", 1)]
+                mr = [m for m in _walk(tr) if m[0] == ("arg", 1)]
+                if L[0] == ("arg", 2) and R[0] == ("arg", 2) and lp != rp and ml and mr and ml[0][1][:1] != mr[0][1][:1] and ".timestamp" in ml[0][1] and ".timestamp" in mr[0][1]:
+                    ok = (L, R, ml[0][1][0], mr[0][1][0], t)
+    if not ok:
+        r.fail("interpolate_duration: formula", why + ": durations between two matrix timestamps are not the linear interpolation in time", F.loc(g))
+        return
+    r.ok("interpolate_duration: formula", "left + (t - t_left) / (t_right - t_left) * (right - left)")
+    L, R, ul, ur, t = ok
+    # which matrices / values are left and right in the parent
+    cagg = [st for _, _, st in mir.stmts(fn) if st["r"]["k"] == "agg" and st["r"].get("n") == g]
+    zips = [tt for _, tt in mir.calls(fn) if tt["callee"].endswith("Iterator::zip") or tt["callee"].endswith("Option::<T>::zip")]
+    if len(cagg) != 1 or len(zips) != 1:
+        r.ok("interpolate_duration: bracket", "not decided: the bracketing values are not paired with a single zip")
+        return
+    ups = [mir.expr(fn, o) for o in cagg[0]["r"]["o"]]
+    il = _matrix_index(ups[int(ul[1:])]) if ul[1:].isdigit() and int(ul[1:]) < len(ups) else None
+    ir = _matrix_index(ups[int(ur[1:])]) if ur[1:].isdigit() and int(ur[1:]) < len(ups) else None
+    zl, zr = _matrix_index(mir.expr(fn, zips[0]["args"][0])), _matrix_index(mir.expr(fn, zips[0]["args"][1]))
+    first_is_left = L[1][:1] == (".0",)
+    vl, vr = (zl, zr) if first_is_left else (zr, zl)
+    if None in (il, ir, vl, vr):
+        r.ok("interpolate_duration: bracket", "not decided: matrix indices are not recognisable as expressions of the binary search result")
+    elif _is_left_of(il, ir) and vl == il and vr == ir:
+        r.ok("interpolate_duration: bracket", "left = matrix[idx-1], right = matrix[idx]; the left/right values come from the same matrices as the left/right timestamps")
+    else:
+        r.fail("interpolate_duration: bracket", "the bracketing matrices are not (idx-1, idx) of the binary search, or the left/right VALUES are taken from other matrices than the left/right "
+               "TIMESTAMPS: the interpolation weights are applied to the wrong values", F.loc(root, zips[0]["ln"]))
+    # distances: left value in between
+    dfn = F.fns[dis[0]]
+    idxs = []
+    for _, tt in mir.calls(dfn):
+        if tt["callee"].endswith("::get") and len(tt["args"]) == 2:
+            ie = mir.expr(dfn, tt["args"][1])
+            if any(m[0][0] == "call" and m[0][1].endswith("binary_search") for m in _walk(ie)) and any("Err" in str(x) for m in _walk(ie) for x in m[1]):
+                idxs.append(ie)
+    if not idxs:
+        r.ok("interpolate_distance: in between", "not decided: no lookup indexed by the Err payload of the binary search")
+    elif all(_bin(x, "Sub") and _bin(x, "Sub")[1][0] == ("const", "1_usize") for x in idxs):
+        r.ok("interpolate_distance: in between", "distance of the LEFT matrix (idx-1)")
+    else:
+        r.fail("interpolate_distance: in between", "between two matrix timestamps the distance is not taken from the LEFT matrix (index idx-1 of the binary search)", F.loc(dis[0]))
+
+
 def run(ctx):
     ctx.explanation = (
         "Sibling agreement of all TransportCost providers: duration methods (and their helpers within the type) read only duration data and apply the "
@@ -319,6 +444,7 @@ def run(ctx):
     ctx.run("C16-F1", "sibling field roles: duration/distance methods read their own data; scale only on durations", f1_field_roles, floor=18)
     ctx.run("C16-F1b", "pragmatic reader feeds MatrixData durations/distances from the right matrix fields", f1b_matrix_data_roles, floor=5)
     ctx.run("C16-F2", "index shape agreement: from * size + to in every provider", f2_index_shape, floor=8)
+    ctx.run("C16-I1", "time-dependent routing: linear interpolation formula, (idx-1, idx) bracket with matching values/timestamps, left distance", i1_interpolation, floor=1)
     ctx.run("C16-T1", "time-aware provider: timestamp index co-sorted with the matrices", t1_cosorted_timestamps, floor=2)
     try:
         from . import c13
